@@ -100,6 +100,12 @@ func (c *Conversation) verifySMP2(s1 *smp1State, msg smp2Message) error {
 		return newOtrError("Pb or Qb has no inverse")
 	}
 
+	if mod(msg.g2b, p).Sign() == 0 || mod(msg.g3b, p).Sign() == 0 {
+		// with g2b or g3b congruent to 0 the generators g2, g3 are 0: our own Pa and Qa become 0 whatever the
+		// secret is, every proof hash is H(i, 0, 0), and Rb = 0 then passes the final comparison
+		return newOtrError("g2b or g3b is congruent to zero")
+	}
+
 	if !verifyZKP(msg.d2, msg.g2b, msg.c2, 3, c.version) {
 		return newOtrError("c2 is not a valid zero knowledge proof")
 	}
